@@ -213,6 +213,12 @@ func c12(c *core.Ctx) {
 		}
 		c.EndRule()
 	}
+
+	// ---------------------------------------------------------------- R6 (shared)
+	// over HTTP the content-type gate is what keeps a unary call from a streaming handler and vice versa ("a unary
+	// name used for a stream fails with a status error without running any handler"): the codec tables of C11/R3
+	c.Borrow("C11", map[string]string{"R3": "R6"}, c11)
+
 }
 
 // loopCaptureCheck: for each MakeClosure inside a cyclic region, every bound
